@@ -420,6 +420,11 @@ class Point(HyperbolicObject, projective.Point):
             utils.normalize(self.proj_data, self.minkowski),
             axis=-2
         )
+
+        #use the representative on the upper sheet of the hyperboloid,
+        #so that the sign of the determinant detects orientation
+        normed = normed * np.where(normed[..., :1] < 0, -1, 1)
+
         isom = utils.find_isometry(self.minkowski, normed,
                                    force_oriented)
 
@@ -1313,6 +1318,13 @@ class TangentVector(PointPair):
 
         """
         normed = utils.normalize(self.aux_data, self.minkowski)
+
+        #(x, v) and (-x, -v) are the same tangent vector: use the
+        #representative with basepoint on the upper sheet of the
+        #hyperboloid, so that the sign of the determinant detects
+        #orientation
+        normed = normed * np.where(normed[..., :1, :1] < 0, -1, 1)
+
         isom = utils.find_isometry(self.minkowski, normed,
                                    force_oriented)
 
